@@ -761,11 +761,25 @@ static void modeTable(int argc, char** argv, Rng& rng)
       }
       case 10:
       {
-        op = "copy";
-        r = call([&]() {
-          bpp::DataTable c(t);
-          t = c;
-        });
+        if (rng.coin())
+        {
+          op = "copy";
+          r = call([&]() {
+            bpp::DataTable c(t);
+            t = c;
+          });
+        }
+        else
+        {
+          // assignment from a table of another shape, with or without names
+          op = "assign";
+          size_t c2 = 1 + rng.below(3), r2 = rng.below(3);
+          bpp::DataTable o(c2);
+          for (size_t a = 0; a < r2; ++a) o.addRow(vec(c2));
+          if (rng.coin()) o.setColumnNames(uniqueNames(rng, c2, "k"));
+          if (r2 > 0 && rng.chance(1, 3)) o.setRowNames(uniqueNames(rng, r2, "q"));
+          r = call([&]() { t = o; });
+        }
         break;
       }
       default:
@@ -834,20 +848,16 @@ static void distCase(DistCase& c)
   const DiscreteDistributionInterface& d = *c.d;
   std::string text, fam2;
   size_t n = d.getNumberOfCategories(), n2 = 0;
-  std::vector<double> pool;
-  for (size_t i = 0; i < n; ++i)
-  {
-    pool.push_back(d.getCategory(i));
-    pool.push_back(d.getProbability(i));
-  }
-  std::sort(pool.begin(), pool.end());
-  pool.erase(std::unique(pool.begin(), pool.end()), pool.end());
-  Pool pl(pool);
+  // class values and probabilities on the 10^-6 grid of the description language
+  auto fx = [](double x) -> long long {
+    double y = x * 1e6;
+    return std::fabs(y) < 2147483646.0 ? std::llround(y) : -2147483647LL;
+  };
   Arr cats, probs, cats2, probs2;
   for (size_t i = 0; i < n; ++i)
   {
-    cats.add(pl.indexOf(d.getCategory(i)));
-    probs.add(pl.indexOf(d.getProbability(i)));
+    cats.add(fx(d.getCategory(i)));
+    probs.add(fx(d.getProbability(i)));
   }
   Res r = call([&]() {
     std::ostringstream* os = new std::ostringstream();
@@ -863,8 +873,8 @@ static void distCase(DistCase& c)
     n2 = back->getNumberOfCategories();
     for (size_t i = 0; i < n2; ++i)
     {
-      cats2.add(pl.indexOf(back->getCategory(i)));
-      probs2.add(pl.indexOf(back->getProbability(i)));
+      cats2.add(fx(back->getCategory(i)));
+      probs2.add(fx(back->getProbability(i)));
     }
   });
   Arr inner;
